@@ -1,4 +1,74 @@
-(* Props/C01.v — placeholder until Proofs/Heap.v lands (theorems added below as they are proved). *)
-From Serif Require Import Base.PyVal Model.Heap.
-Theorem C01_placeholder : True. Proof. exact I. Qed.
-Print Assumptions C01_placeholder.
+(* Props/C01.v — value semantics: writes stay local, read-only operations are pure.
+   Model: Model/Heap.v (objects, storage identities, registry, memos; every public
+   operation is one [op]).  Statements only. *)
+From Coq Require Import List Bool ZArith.
+From Serif Require Import Base.PyVal Model.Heap Proofs.HeapBase Proofs.HeapReg Proofs.HeapFrame.
+Import ListNotations.
+
+(* THE FRAME THEOREM. For every operation of the alphabet and every state: an object that the
+   operation is not aimed at ([touched]) and that is not garbage-collected by it shows exactly
+   its previous contents, name, dtype, storage and (for tables) column list afterwards.
+   [touched] is empty for every producer — copy, slice, mask, selection, stacking, join, sort,
+   aggregate, window, arithmetic, transpose (ONewVec / ONewTab) — and for fingerprint(), repr,
+   iteration and failed writes: these never change their operands. *)
+Theorem C01_frame : forall s o s' out h2 o2,
+  step s o = (s', out) ->
+  aget (heap s) h2 = Some o2 -> ~ In h2 (touched s o) -> ~ In h2 (collected o) ->
+  option_map strip (aget (heap s') h2) = Some (strip o2).
+Proof. exact step_frame. Qed.
+Print Assumptions C01_frame.
+
+(* Ownership invariant: in every reachable state a vector is a column of at most one table and
+   every column of a live table is live (tables only hold vectors they allocated themselves —
+   also after t.col = v, which stores a snapshot). *)
+Theorem C01_ownership_invariant : forall os, Inv_own (run init os).
+Proof. exact (fun os => reachable_Inv_own os init Inv_own_init). Qed.
+Print Assumptions C01_ownership_invariant.
+
+Theorem C01_ownership_preserved : forall s o s' out, step s o = (s', out) -> Inv_own s -> Inv_own s'.
+Proof. exact step_preserves_Inv_own. Qed.
+Print Assumptions C01_ownership_preserved.
+
+(* A write through a vector handle h changes what is seen through h and through the one table
+   (if any) holding h as a column; every other vector and every table not holding h shows
+   exactly its previous contents, names and dtypes (deep view: the table's own fields and the
+   views of all its columns). *)
+Theorem C01_write_stays_local : forall s h us sid' s' out h2,
+  Inv_own s -> step s (OSetV h us sid') = (s', out) ->
+  h2 <> h -> (forall t, gett s h2 = Some t -> ~ In h (cols t)) ->
+  deep_view s' h2 = deep_view s h2.
+Proof. exact write_stays_local. Qed.
+Print Assumptions C01_write_stays_local.
+
+Theorem C01_only_one_table_sees_a_column_write : forall s h t1 t2 h1 h2,
+  Inv_own s -> gett s h1 = Some t1 -> gett s h2 = Some t2 -> In h (cols t1) -> In h (cols t2) -> h1 = h2.
+Proof. exact at_most_one_table_sees_a_write. Qed.
+Print Assumptions C01_only_one_table_sees_a_column_write.
+
+(* A write that cannot be kept local is refused with AliasError and changes nothing; more
+   generally every failed operation other than a multi-column table write leaves the whole
+   state (every object, the registry, every memo) exactly as it was. *)
+Theorem C01_alias_refusal_changes_nothing : forall s h us sid' s',
+  step s (OSetV h us sid') = (s', ErrAlias) -> s' = s.
+Proof. exact alias_refusal_changes_nothing. Qed.
+Print Assumptions C01_alias_refusal_changes_nothing.
+
+Theorem C01_failed_operation_changes_nothing : forall s o s' out,
+  step s o = (s', out) -> (forall ht ws, o <> OSetT ht ws) ->
+  out <> Ok -> (forall x, out <> OkFp x) -> s' = s.
+Proof. exact failed_op_changes_nothing. Qed.
+Print Assumptions C01_failed_operation_changes_nothing.
+
+(* Non-vacuity: a history that builds two vectors over one shared tuple, a table from one of
+   them, writes through a live column view, and is refused on the sharer. *)
+Example C01_example :
+  let os := [ ONewVec 1 (CLit [SInt 1; SInt 2] (Some 1)) None 5;
+              ONewVec 2 (CLit [SInt 1; SInt 2] None) None 5;           (* shares storage 5 *)
+              ONewTab 5 [CFrom 1 None; CLit [SNone; SInt 9] (Some 2)] [3; 4] [6; 7] 8;
+              OSetV 3 [(0, SInt 42)] 9 ] in
+  let s := run init os in
+  getv s 1 = Some (mkVec [SInt 1; SInt 2] 5 (Some 1) (Some (mkD KInt false)) None) /\
+  option_map vals (getv s 3) = Some [SInt 42; SInt 2] /\
+  snd (step s (OSetV 1 [(0, SInt 7)] 10)) = ErrAlias /\
+  snd (step s (OSetV 4 [(1, SFloat 3)] 10)) = Ok.
+Proof. vm_compute. repeat split. Qed.
